@@ -6,7 +6,7 @@ import solvegen
 from core import clist
 
 HEADER = """From Coq Require Import ZArith List Bool.
-From PV Require Import Common.Bits Rand.BV Rand.Expr Rand.Lower Rand.Typing Rand.World Rand.SolveCheck.
+From PV Require Import Common.Bits Rand.BV Rand.Expr Rand.Lower Rand.Typing Rand.World Rand.Soft Rand.SolveCheck.
 Import ListNotations.
 Open Scope Z_scope.
 """
@@ -52,11 +52,11 @@ def brief(sc, oi):
     return {"classes": sc["classes"], "enums": sc.get("enums"), "ops_up_to_call": sc["ops"][:oi + 1]}
 
 
-def run_generic(ctx, prop, bits, what, n_quick, n_thorough, softs=False, small=True, tree=False, hist=False, tag=None, ninst=1):
+def run_generic(ctx, prop, bits, what, n_quick, n_thorough, softs=False, small=True, tree=False, hist=False, tag=None, ninst=1, soft_bias=False):
     """bits: mask of s_check bits that are violations of this property; bit 1 (terms) is always the tie (A)"""
     rnd = random.Random("%s-%d" % (prop, ctx.seed))
     n = n_quick if ctx.quick() else n_thorough
-    gen = lambda r: solvegen.Gen(r, small=small, tree=tree, hist=hist, ninst=ninst).scenario(ncalls=3, softs=softs)
+    gen = lambda r: solvegen.Gen(r, small=small, tree=tree, hist=hist, ninst=ninst, soft_bias=soft_bias).scenario(ncalls=3, softs=softs)
     scenarios = [gen(rnd) for _ in range(n)]
     stats = {"evaluations": 0, "outcomes": {}, "nowt": 0}
 
